@@ -21,7 +21,7 @@ thread_local! {
 }
 
 /// one unit of record (t, i): no newline anywhere, so line buffering cannot help
-fn unit_bytes(t: u64, i: u64) -> Vec<u8> {
+pub(crate) fn unit_bytes(t: u64, i: u64) -> Vec<u8> {
     let mut s = format!("<{}.{}>", t, i).into_bytes();
     let fill = b'A' + ((t * 7 + i) % 26) as u8;
     while s.len() < UNIT {
@@ -31,7 +31,7 @@ fn unit_bytes(t: u64, i: u64) -> Vec<u8> {
 }
 
 /// file bytes -> runs [[t, i, units], ...]; Err if the file is not a sequence of whole units
-fn runs(bytes: &[u8]) -> Result<Vec<[u64; 3]>, String> {
+pub(crate) fn runs(bytes: &[u8]) -> Result<Vec<[u64; 3]>, String> {
     if bytes.len() % UNIT != 0 {
         return Err(format!("file length {} is not a multiple of the unit", bytes.len()));
     }
